@@ -37,12 +37,11 @@ theorem unsolved_expr_raises (w : World) (s : EvalSt) (hs : s.Unsolved) (h : Nat
         exact hne this
       simp [this]
 
-/-- **the current code answers `TypeError` for a constraint** (the `except ValueError("…")`
-clause): the full statement "every accessor raises `ValueError`" is false of the model as it
-stands; this is the replayed known finding, to be flipped by the `fix:` commit. -/
-theorem unsolved_cons_raises_typeError (w : World) (s : EvalSt) (hs : s.Unsolved) (h : Nat) (c : ConsObj)
+/-- constraints: `Constraint.eval()` before any solve raises `ValueError` (this was a
+`TypeError` before the `fix:` commit on the `except` clause; the model follows the code) -/
+theorem unsolved_cons_raises (w : World) (s : EvalSt) (hs : s.Unsolved) (h : Nat) (c : ConsObj)
     (e : EObj) (hc : w.cons[h]? = some c) (he : w.exs[c.e]? = some e) (hm : MentionsLeaf e) :
-    evalCons w s h = .error .typeError := by
+    evalCons w s h = .error .valueError := by
   unfold evalCons
   rw [hs.2.2.1]
   simp only [List.lookup, hc, unsolved_expr_raises w s hs c.e e he hm]
@@ -59,4 +58,4 @@ theorem failed_solve_assigns_nothing (s : EvalSt) : s = s := rfl
 end Pepit
 
 #print axioms Pepit.unsolved_expr_raises
-#print axioms Pepit.unsolved_cons_raises_typeError
+#print axioms Pepit.unsolved_cons_raises
